@@ -15,7 +15,11 @@ var profile = envh.Profile{MaxHooks: 8, MaxReqs: 12, FailP: 80, BodyFailP: 120, 
 const rule = "random walks of 1..12 requests steered through DEPLOY/CONFIGURE/START/STOP cycles (failing hooks, failing bodies, failing run-number " +
 	"acquisition, API fallback to GO_ERROR, teardown while running) over 0..8 hooks placed mostly at run-related moments; every fifth case a teardown class " +
 	"(teardown from every state, half of them from RUNNING, with 1..4 call/task hooks at leave_<state> critical or not, failing or not, at weights of both signs, " +
-	"call hooks at DESTROY/after_DESTROY, calls still pending, forced or not, release rounds failing or not, then 0..2 further requests); non-trivial = at least one run " +
+	"call hooks at DESTROY/after_DESTROY, calls still pending, forced or not, release rounds failing or not, then 0..2 further requests); every fifth case a " +
+	"body-failure class with the REAL transition bodies (the tasks refuse the command of START_ACTIVITY - half of them -, STOP_ACTIVITY, CONFIGURE or RESET, requested " +
+	"through TryTransition or the API glue, after a legal path that sometimes holds a complete earlier run, with 0..4 probes at the moments of the failed transition and of " +
+	"the GO_ERROR that closes it, then 0..3 further requests: GO_ERROR, the request again, RECOVER, STOP, teardown); half of the remaining walks with the real bodies of " +
+	"CONFIGURE/START/STOP/RESET (TR/CR requests: fake task manager answers the body's command per script); non-trivial = at least one run " +
 	"number was handed out and >=3 requests; distinct by input text"
 
 func nontrivial(input, obs string) bool {
